@@ -15,6 +15,15 @@ Sub-checks:
 * inst        CIMInstance.tomof() (+ hand-written classes) -> compile ->
               equal, including embedded instances and references.
 * nonascii    classes whose identifiers contain non-ASCII letters.
+* session     state: 3-6 round trips with ONE MOFCompiler object (qualifier
+              declarations, classes, instances, in two namespaces) in which
+              qualifier and class names recur - redeclared with other flavors
+              / types, redefined, or not sent again because the compiler has
+              them already - and in which objects of earlier steps are
+              modified in place and printed again.  Reported is what a new
+              MOFCompiler does not show for a newly built equal object
+              (compiler-state:* / object-state:*), and results of earlier
+              steps that changed afterwards.
 """
 
 import re
@@ -62,7 +71,20 @@ RULE = (
     "string literal, or a string value with an escape-worthy character "
     "(\" ' \\ or U+0001..U+001F), or a char16/real/datetime/reference/"
     "embedded value; for handwritten: at least one escape sequence or more "
-    "than one part.  Distinct = distinct recipe.")
+    "than one part.  session: a pool of 1-3 qualifier declarations (names "
+    "mostly from 4 fixed ones) plus, for most of them, a second declaration "
+    "of the same name with other flavors (40%: also another type); 3-6 "
+    "steps, each into one of two namespaces (1 in 6: the second): tomof() of "
+    "a declaration with default value; a class (class names mostly from 3 "
+    "fixed ones) using 1-3 pool declarations, its first one for certain; an "
+    "instance with its classes; or a variant = the object of an earlier "
+    "class/instance step modified in place (default/property value := NULL, "
+    "property/method/class qualifier deleted; 16 masks, 0 = unchanged) and "
+    "printed with another maxline.  Half of the steps do not send the "
+    "declarations/classes that are current in the session's model again.  "
+    "Non-trivial = at least 2 compilations and a redeclaration, "
+    "redefinition, reuse, variant or second namespace.  Distinct = distinct "
+    "recipe.")
 ASSUMPTIONS = [
     "identifiers are ASCII DSP0004 identifiers that are not MOF keywords "
     "(the nonascii sub-check is the exception); the qualifier names "
@@ -101,6 +123,19 @@ ASSUMPTIONS = [
     "is a shallow copy of a never-used parser (shared read-only tables); a "
     "failure signature is reported only after it was reproduced once per "
     "process with a MOFCompiler built the regular way",
+    "session: a MOFCompiler (on MOFWBEMConnection(conn=None)) may be used "
+    "for any number of compile_string() calls; SetQualifier/CreateClass of "
+    "MOFWBEMConnection are documented to overwrite, CreateInstance to "
+    "append, so compiling a declaration/class of a name again replaces the "
+    "earlier one and a later qualifier value gets the flavors of the "
+    "declaration that is current then; a session ends at the first "
+    "compilation that raises (the state of a compiler after an error is not "
+    "specified); objects are modified only through documented settable "
+    "attributes (CIMProperty.value, deleting entries of the properties/"
+    "methods/qualifiers dictionaries); defects that a new compiler shows for "
+    "the same text (known findings of cls/inst/qualdecl) are not reported "
+    "again by session; the compiled objects of earlier steps are expected to "
+    "stay as they were compiled as long as no later step replaces them",
 ]
 
 # Mutations of pywbem applied one at a time in a scratch worktree (on top of
@@ -143,6 +178,10 @@ SENSITIVITY = [
     "compiler p_instanceDeclaration(): value only assigned when the "
     "initializer is not NULL (seeded change2) -> inst/instance:NULL-value-"
     "replaced-by-class-default",
+    "compiler p_qualifier(): flavors of a qualifier without flavor list "
+    "cached per (namespace, qualifier name) in the compiler object and never "
+    "invalidated (seeded change6) -> session/compiler-state:flavor:"
+    "overridable|tosubclass|translatable",
     "not caught because equivalent for this property: mofstr() split "
     "position avl_len instead of avl_len-1 (only the line length changes), "
     "embedded value objs[-1] instead of objs[0] (one object), newlines of "
@@ -402,13 +441,16 @@ def _quals_from(draw, decls, max_size=2):
         name = d['name']
         if draw(SMALL) == 7:
             name = _swap(name, draw(MASK))
-        out.append({'k': 'qual', 'name': name, 'type': d['type'], 'value': v,
-                    'is_array': d['is_array'], 'propagated': None,
-                    'overridable': d['overridable'],
-                    'tosubclass': d['tosubclass'],
-                    'toinstance': None,
-                    'translatable': d['translatable']})
+        out.append(_qual_of(d, name, v))
     return out
+
+
+def _qual_of(d, name, v):
+    "qualifier value recipe with the flavors of declaration recipe d"
+    return {'k': 'qual', 'name': name, 'type': d['type'], 'value': v,
+            'is_array': d['is_array'], 'propagated': None,
+            'overridable': d['overridable'], 'tosubclass': d['tosubclass'],
+            'toinstance': None, 'translatable': d['translatable']}
 
 
 PROP_KIND = st.sampled_from(['plain'] * 8 + ['ref', 'ref', 'emb'])
@@ -817,10 +859,10 @@ def _new_compiler(real=False):
     return comp, conn
 
 
-def compile_mof(text, real=False, guard=True):
+def compile_mof(text, real=False, guard=True, ns=None):
     """
-    Compile text with a new compiler into namespace NS; returns
-    (conn, exc).
+    Compile text with a new compiler into namespace ns (default NS);
+    returns (conn, exc).
     """
     if guard and backtracking_hazard(text):
         return None, FoldSplit()
@@ -828,7 +870,7 @@ def compile_mof(text, real=False, guard=True):
     try:
         with warnings.catch_warnings():
             warnings.simplefilter('ignore')
-            comp.compile_string(text, NS)
+            comp.compile_string(text, ns or NS)
     except Exception as exc:  # pylint: disable=broad-except
         return conn, exc
     return conn, None
@@ -1902,12 +1944,15 @@ SESSION_KIND = st.sampled_from(['cls'] * 4 + ['inst'] * 3 + ['variant'] * 3 +
 SESSION_MASK = st.sampled_from([0, 1, 2, 3, 4, 5, 6, 7, 9, 10, 12, 21, 42,
                                 85, 170, 255])
 SESSION_LEN = st.integers(3, 6)
+NS2 = 'root/c08b'
+SESSION_NS = st.sampled_from([NS] * 5 + [NS2])
 
 
 @st.composite
 def session_case(draw):
     """
-    {'steps': [...]}, all steps are run with the same MOFCompiler:
+    {'steps': [...]}, all steps are run with the same MOFCompiler; the last
+    element of every step is the target namespace (one of two):
       ('qualdecl', recipe, maxline)  tomof() of a declaration (default
                                      value, scopes) whose name may be in use
       ('cls', cls_case, resend)      class that uses declarations of a pool
@@ -1935,21 +1980,29 @@ def session_case(draw):
         if draw(SMALL) == 7:
             twin['name'] = _swap(twin['name'], draw(MASK))
         pool.append(twin)
-    decl_lists = st.lists(st.sampled_from(pool), max_size=3,
+    decl_lists = st.lists(st.sampled_from(pool), min_size=1, max_size=3,
                           unique_by=lambda d: d['name'].lower())
     cls_cases = cls_case(decl_lists, SESSION_CNAME)
     steps = []
     for i in range(draw(SESSION_LEN)):
         kind = draw(SESSION_KIND if i else SESSION_KIND0)
         if kind == 'qualdecl':
-            steps.append(('qualdecl', draw(SESSION_QUALDECL), draw(MAXLINE)))
+            step = ('qualdecl', draw(SESSION_QUALDECL), draw(MAXLINE))
         elif kind == 'cls':
-            steps.append(('cls', draw(cls_cases), draw(st.booleans())))
+            case = draw(cls_cases)
+            d = case['decls'][0]
+            if d['name'].lower() not in _used_qualifier_names(case['cls']):
+                # every class of a session uses its first declaration
+                case['cls']['qualifiers'].append(_qual_of(
+                    d, d['name'], draw(value_for(
+                        d['type'], d['is_array'], 1, d['array_size']))))
+            step = ('cls', case, draw(st.booleans()))
         elif kind == 'inst':
-            steps.append(('inst', draw(SESSION_INST), draw(st.booleans())))
+            step = ('inst', draw(SESSION_INST), draw(st.booleans()))
         else:
-            steps.append(('variant', draw(SMALL), draw(SESSION_MASK),
-                          draw(MAXLINE)))
+            step = ('variant', draw(SMALL), draw(SESSION_MASK),
+                    draw(MAXLINE))
+        steps.append(step + (draw(SESSION_NS),))
     return {'steps': steps}
 
 
@@ -2042,19 +2095,23 @@ class _Session:
     """
     One MOFCompiler on one MOFWBEMConnection and a model of what has been
     compiled with it: the current declaration of every qualifier name, the
-    current MOF of every class name.
+    current MOF of every class name, per namespace.
     """
 
     def __init__(self, real):
         self.real = real
         self.comp, self.conn = _new_compiler(real)
-        self.decls = {}         # name.lower() -> _decl_key() | ('tomof', n)
-        self.flavors_used = {}  # name.lower() -> flavors at the last use
+        # keys: (namespace, name.lower())
+        self.decls = {}         # -> _decl_key() | ('tomof', n)
+        self.flavors_used = {}  # -> flavors at the last use
         self.types_used = {}
-        self.classdefs = {}     # classname.lower() -> MOF text | ('cls', n)
-        self.emb_sent = False
-        self.objs = []          # [kind, case (own copy), object, maxline]
-        self.results = []       # (kind, name, recipe copy, compiled object)
+        self.classdefs = {}     # -> MOF text | ('cls', n)
+        self.emb_sent = set()   # namespaces
+        self.objs = []          # [kind, case (own copy), object]
+        # (kind, ns, name, recipe copy, compiled object, signatures found
+        # when it was compiled)
+        self.results = []
+        self.last_sigs = frozenset()
         self.sent = []
         self.found = []
         self.events = []
@@ -2074,19 +2131,19 @@ class _Session:
             txt = '...' + txt[-2500:]
         return txt
 
-    def _pre(self, decls, class_mof, resend):
+    def _pre(self, ns, decls, class_mof, resend):
         """
         -> (text to send, complete text, commit()): EmbeddedInstance/
         EmbeddedObject declarations once per session; declarations and
         classes that are current in the session only if resend.
         """
-        send = [] if self.emb_sent else [EMB_DECLS]
+        send = [] if ns in self.emb_sent else [EMB_DECLS]
         full = [EMB_DECLS]
         todo = []
         for d in decls:
             txt = decl_mof(d)
             full.append(txt)
-            key = d['name'].lower()
+            key = (ns, d['name'].lower())
             if not resend and self.decls.get(key) == _decl_key(d):
                 self.event('declaration-reused-from-compiler-state')
                 self.classes.add('reuses-declaration')
@@ -2100,7 +2157,7 @@ class _Session:
             if not piece:
                 continue
             full.append(piece)
-            key = piece.split()[1].lower()
+            key = (ns, piece.split()[1].lower())
             if not resend and self.classdefs.get(key) == piece:
                 self.event('class-reused-from-compiler-state')
                 self.classes.add('reuses-class')
@@ -2112,27 +2169,31 @@ class _Session:
             todo.append((self.classdefs, key, piece))
 
         def commit():
-            self.emb_sent = True
+            self.emb_sent.add(ns)
             for dct, key, val in todo:
                 dct[key] = val
         return ''.join(send), ''.join(full), commit
 
-    def _note_uses(self, decls, r):
+    def _note_uses(self, ns, decls, r):
         "classify the qualifier uses of class recipe r against earlier uses"
         used = _used_qualifier_names(r)
         for d in decls:
-            key = d['name'].lower()
-            if key not in used:
+            if d['name'].lower() not in used:
                 continue
+            key = (ns, d['name'].lower())
+            if key not in self.flavors_used and any(
+                    k[1] == key[1] for k in self.flavors_used):
+                self.event('qualifier-used-in-second-namespace')
+                self.classes.add('qualifier-in-two-namespaces')
             fl = _decl_flavors(d)
             ty = (d['type'], d['is_array'])
             if key in self.flavors_used:
                 if self.flavors_used[key] != fl:
                     self.event('qualifier-used-again:other-flavors')
-                    self.classes.add('qualifier-used-again:other-flavors')
+                    self.classes.add('reuses-qualifier-name:other-flavors')
                 elif self.types_used[key] != ty:
                     self.event('qualifier-used-again:other-type')
-                    self.classes.add('qualifier-used-again:other-type')
+                    self.classes.add('reuses-qualifier-name:other-type')
                 else:
                     self.event('qualifier-used-again:same-declaration')
             self.flavors_used[key] = fl
@@ -2140,8 +2201,8 @@ class _Session:
 
     # -- one compilation
 
-    def run(self, idx, what, sent, full_fresh, evaluate, commit, emb_texts=(),
-            state_prefix='compiler-state'):
+    def run(self, idx, ns, what, sent, full_fresh, evaluate, commit,
+            emb_texts=(), state_prefix='compiler-state'):
         """
         compile_string(sent) with the session's compiler and evaluate; what
         is found is reported unless a new compiler finds the same for the
@@ -2152,20 +2213,24 @@ class _Session:
                 any(backtracking_hazard(t) for t in emb_texts):
             self.event('step-skipped:backtracking-hazard')
             return False
-        n_before = len(self.conn.instances.get(NS, []))
+        n_before = len(self.conn.instances.get(ns, []))
+        if ns != NS:
+            self.classes.add('second-namespace')
         exc = None
         try:
             with warnings.catch_warnings():
                 warnings.simplefilter('ignore')
-                self.comp.compile_string(sent, NS)
+                self.comp.compile_string(sent, ns)
         except Exception as e:  # pylint: disable=broad-except
             exc = e
-        self.sent.append(sent)
+        self.sent.append('// namespace %s\n%s' % (ns, sent))
         self.compiled += 1
         found = outcome(self.conn, exc, sent, what,
                         lambda conn: evaluate(conn, n_before), emb_texts)
+        self.last_sigs = frozenset(s for s, _ in found)
         if found:
-            conn2, exc2 = compile_mof(full_fresh, self.real, guard=False)
+            conn2, exc2 = compile_mof(full_fresh, self.real, guard=False,
+                                      ns=ns)
             base = outcome(conn2, exc2, full_fresh, what,
                            lambda conn: evaluate(conn, 0), emb_texts)
             base_sigs = {s for s, _ in base}
@@ -2191,15 +2256,15 @@ class _Session:
 
     # -- steps
 
-    def step_qualdecl(self, idx, r, maxline):
+    def step_qualdecl(self, idx, r, maxline, ns):
         orig = S.build(r)
         text = orig.tomof(maxline=maxline)
-        key = r['name'].lower()
+        key = (ns, r['name'].lower())
 
         def evaluate(conn, n_before):
             d = Diff(text)
             try:
-                got = conn.qualifiers[NS][orig.name]
+                got = conn.qualifiers[ns][orig.name]
             except KeyError:
                 d.add('compiled-object-missing', 'qualifier declaration',
                       orig.name, None)
@@ -2213,10 +2278,11 @@ class _Session:
                 self.classes.add('redeclares-qualifier')
             self.decls[key] = _decl_key(r) if r['value'] is None and \
                 r['toinstance'] is None else ('tomof', idx)
-        if self.run(idx, 'qualifier declaration', text, text, evaluate,
+        if self.run(idx, ns, 'qualifier declaration', text, text, evaluate,
                     commit):
-            self.results.append(('qualdecl', orig.name, copy.deepcopy(r),
-                                 self.conn.qualifiers[NS].get(orig.name)))
+            self.results.append(('qualdecl', ns, orig.name, copy.deepcopy(r),
+                                 self.conn.qualifiers[ns].get(orig.name),
+                                 self.last_sigs))
 
     def _tomof_pair(self, idx, obj, fresh, maxline):
         """
@@ -2246,7 +2312,7 @@ class _Session:
             return text, ftext, 'object-state'
         return text, ftext, 'compiler-state'
 
-    def step_cls(self, idx, case, resend, obj=None, maxline=None):
+    def step_cls(self, idx, case, resend, ns, obj=None, maxline=None):
         "obj: object modified in place (variant); else built from the case"
         r = case['cls']
         maxline = case['maxline'] if maxline is None else maxline
@@ -2258,9 +2324,9 @@ class _Session:
             return None
         body, fbody, prefix = pair
         stubs = ''.join('class %s {\n};\n' % n for n in cls_stub_names(r))
-        pre, full, commit0 = self._pre(case['decls'], stubs, resend)
-        self._note_uses(case['decls'], r)
-        key = r['classname'].lower()
+        pre, full, commit0 = self._pre(ns, case['decls'], stubs, resend)
+        self._note_uses(ns, case['decls'], r)
+        key = (ns, r['classname'].lower())
         if key in self.classdefs:
             self.event('class-redefined')
             self.classes.add('redefines-class')
@@ -2268,7 +2334,7 @@ class _Session:
         def evaluate(conn, n_before):
             d = Diff(body)
             try:
-                got = conn.classes[NS][fresh.classname]
+                got = conn.classes[ns][fresh.classname]
             except KeyError:
                 d.add('compiled-object-missing', 'class', fresh.classname,
                       None)
@@ -2279,13 +2345,15 @@ class _Session:
         def commit():
             commit0()
             self.classdefs[key] = ('cls', idx)
-        if self.run(idx, 'class', pre + body, full + fbody, evaluate, commit,
-                    state_prefix=prefix):
-            self.results.append(('cls', fresh.classname, copy.deepcopy(r),
-                                 self.conn.classes[NS].get(fresh.classname)))
+        if self.run(idx, ns, 'class', pre + body, full + fbody, evaluate,
+                    commit, state_prefix=prefix):
+            self.results.append(('cls', ns, fresh.classname,
+                                 copy.deepcopy(r),
+                                 self.conn.classes[ns].get(fresh.classname),
+                                 self.last_sigs))
         return obj
 
-    def step_inst(self, idx, case, resend, obj=None, maxline=None):
+    def step_inst(self, idx, case, resend, ns, obj=None, maxline=None):
         r = case['inst']
         maxline = case['maxline'] if maxline is None else maxline
         fresh = build_c08inst(r)
@@ -2296,26 +2364,27 @@ class _Session:
             return None
         body, fbody, prefix = pair
         embt = embedded_texts(obj)
-        pre, full, commit = self._pre([], inst_dep_mof(r), resend)
+        pre, full, commit = self._pre(ns, [], inst_dep_mof(r), resend)
         defaults = class_defaults(r)
 
         def evaluate(conn, n_before):
             d = Diff(body)
             d.defaults = defaults
-            insts = conn.instances.get(NS, [])[n_before:]
+            insts = conn.instances.get(ns, [])[n_before:]
             if len(insts) != 1:
                 d.add('compiled-object-missing', 'new instances', 1,
                       len(insts))
                 return d.items
             diff_instance(d, 'instance', fresh, insts[0])
             return d.items
-        if self.run(idx, 'instance', pre + body, full + fbody, evaluate,
+        if self.run(idx, ns, 'instance', pre + body, full + fbody, evaluate,
                     commit, emb_texts=embt, state_prefix=prefix):
-            self.results.append(('inst', None, copy.deepcopy(r),
-                                 self.conn.instances[NS][-1]))
+            self.results.append(('inst', ns, None, copy.deepcopy(r),
+                                 self.conn.instances[ns][-1],
+                                 self.last_sigs))
         return obj
 
-    def step_variant(self, idx, k, mask, maxline):
+    def step_variant(self, idx, k, mask, maxline, ns):
         if not self.objs:
             self.event('variant:no-earlier-object')
             return
@@ -2323,10 +2392,10 @@ class _Session:
         kind, case, obj = ent
         if kind == 'cls':
             n = vary_class(obj, case['cls'], mask)
-            done = self.step_cls(idx, case, False, obj, maxline)
+            done = self.step_cls(idx, case, False, ns, obj, maxline)
         else:
             n = vary_instance(obj, case['inst'], mask)
-            done = self.step_inst(idx, case, False, obj, maxline)
+            done = self.step_inst(idx, case, False, ns, obj, maxline)
         if done is not None:
             what = 'modified-in-place' if n else 'unchanged'
             self.event('variant:%s:%s' % (kind, what))
@@ -2337,26 +2406,23 @@ class _Session:
         What earlier compilations produced (and no later one replaced) is
         still equal to its original at the end of the session.
         """
-        for kind, name, r, got in self.results:
+        for kind, ns, name, r, got, sigs in self.results:
             d = Diff('')
             if kind == 'qualdecl':
-                if self.conn.qualifiers[NS].get(name) is not got:
+                if self.conn.qualifiers[ns].get(name) is not got:
                     continue
                 diff_qualdecl(d, S.build(r), got)
             elif kind == 'cls':
-                if self.conn.classes[NS].get(name) is not got:
+                if self.conn.classes[ns].get(name) is not got:
                     continue
                 diff_class(d, S.build(r), got)
             else:
                 d.defaults = class_defaults(r)
                 diff_instance(d, 'instance', build_c08inst(r), got)
             self.event('rechecked-at-end:' + kind)
-            base = None
             for sig, detail in d.items:
-                if base is None:
-                    # what the compilation itself got wrong is not news
-                    base = self._fresh_sigs(kind, r)
-                if sig in base:
+                if sig in sigs:
+                    # found (or left to another sub-check) when compiled
                     continue
                 self.found.append((
                     'compiler-state:earlier-result-changed:' + sig,
@@ -2365,40 +2431,23 @@ class _Session:
                     'compile_string() texts of the session ===\n%s' %
                     (kind, name, detail, self._history())))
 
-    def _fresh_sigs(self, kind, r):
-        d = Diff('')
-        if kind == 'qualdecl':
-            orig = S.build(r)
-            conn, exc = compile_mof(orig.tomof(), self.real)
-            if exc is None:
-                diff_qualdecl(d, orig, conn.qualifiers[NS][orig.name])
-        # classes and instances: compared when they were compiled; only
-        # the defects that every compilation shows are looked up here
-        return {s for s, _ in d.items} | _EVERY_COMPILATION
-
-
-# signatures of defects of a single compilation (known findings of the other
-# sub-checks) that the end-of-session comparison must not report again
-_EVERY_COMPILATION = frozenset([
-    'compiler:char16-literal-keeps-quotes-and-escapes'])
-
 
 def run_session(ex, real):
     sess = _Session(real)
     for idx, step in enumerate(copy.deepcopy(ex['steps'])):
         kind = step[0]
         if kind == 'qualdecl':
-            sess.step_qualdecl(idx, step[1], step[2])
+            sess.step_qualdecl(idx, step[1], step[2], step[3])
         elif kind == 'cls':
-            obj = sess.step_cls(idx, step[1], step[2])
+            obj = sess.step_cls(idx, step[1], step[2], step[3])
             if obj is not None:
                 sess.objs.append(['cls', step[1], obj])
         elif kind == 'inst':
-            obj = sess.step_inst(idx, step[1], step[2])
+            obj = sess.step_inst(idx, step[1], step[2], step[3])
             if obj is not None:
                 sess.objs.append(['inst', step[1], obj])
         else:
-            sess.step_variant(idx, step[1], step[2], step[3])
+            sess.step_variant(idx, step[1], step[2], step[3], step[4])
         if sess.dead:
             break
     if not sess.dead:
